@@ -123,6 +123,120 @@ def ast_part(ctx):
                % (len(dec), unk), 'correspondence', mism == 0)
 
 
+def text_part(ctx):
+    """the schema TEXT codec against its Coq model (Impl/SchemaText.v): Schema.MarshalCedar = print_schema (bytes) on AST-born schemas,
+    Schema.UnmarshalCedar = parse_schema (accept / reject and the AST) on printed texts, generated texts, the repository's schema
+    files, hand-written corner cases, token- and byte-level mutants, truncations at every position, deep nestings"""
+    import glob
+    import os
+    import schemaast
+    import schematextmut as stm
+    import props.c10 as c10
+    from gen import case
+    r = ctx.rng
+    quick = ctx.tier == 'quick'
+    # ---- stprint
+    asts = [schemaast.schema_ast(r) for _ in range(300 if quick else 6000)] + [schemaast.wild_ast(r) for _ in range(450 if quick else 15000)] + \
+        [schemaast.wild_ast(r, tame=True) for _ in range(450 if quick else 15000)]
+    pcases = [case('sp%d' % i, 'stprint', a) for i, a in enumerate(asts)]
+    go_p = lib.run_go(pcases, 'stprint', ctx.workdir)
+    mo_p = lib.run_model(pcases, 'stprint', ctx.workdir)
+    mism = 0
+    printed = []
+    for c in pcases:
+        cid = lib.case_id(c)
+        g_, m_ = go_p.get(cid, '(missing)'), mo_p.get(cid, '(missing)')      # raw comparison: bytes
+        ok = g_.startswith('(text ')
+        ctx.count(c[:3000], ok)
+        if ok:
+            printed.append(sx.unS(sx.parse(g_)[1]))
+        if g_ != m_ or not ok:
+            mism += 1
+            if mism <= 6:
+                def show(x):
+                    try:
+                        return repr(sx.unS(sx.parse(x)[1]))[:700]
+                    except Exception:
+                        return x[:300]
+                ctx.violation('Schema.MarshalCedar and the Coq model (Impl/SchemaText.v print_schema) disagree: go=%s model=%s' % (show(g_), show(m_)),
+                              dict(kind='case', case=c, go=g_, model=m_))
+    ctx.extra['stprint'] = dict(cases=len(pcases), printed=len(printed), mismatches=mism)
+    lib.log('  stprint: %d cases, %d printed, %d mismatches' % (len(pcases), len(printed), mism))
+    ctx.oblige('correspondence: Schema.MarshalCedar = SchemaText.print_schema (bytes) on %d AST-born schemas (well-formed and wild: names that need quoting, '
+               'reserved words, invalid UTF-8, repeated keys, empty namespaces)' % len(pcases), 'correspondence', mism == 0)
+    # ---- stparse
+    texts = []          # (origin, bytes)
+    for t in printed:
+        texts.append(('printed', t))
+    gen_texts = [schematext.schema_text(r).encode() for _ in range(600 if quick else 20000)]
+    NSNAMES = ['NS', 'A::B', 'X__cedar', '__cedarx', 'in_', 'a1::_b']
+    for _ in range(100 if quick else 3000):
+        t = schemagen.Schema(r).text()
+        if r.random() < 0.5:
+            t = 'namespace %s {\n%s}\n' % (r.choice(NSNAMES), t)
+        gen_texts.append(t.encode())
+    for t in gen_texts:
+        texts.append(('generated', t))
+    corpus = [c10.SCHEMA_TEXT.encode()]
+    for f in sorted(glob.glob(os.path.join(lib.REPO, '**', '*.cedarschema'), recursive=True)):
+        corpus.append(open(f, 'rb').read())
+    for t in corpus:
+        texts.append(('corpus', t))
+    for t in stm.HAND:
+        texts.append(('hand', t))
+    for t in stm.deep_texts():
+        texts.append(('deep', t))
+    # mutants of valid texts (the printer's outputs are valid unless the AST was wild; the generated ones mostly are)
+    bases = corpus[:1] + r.sample(corpus[1:], min(len(corpus) - 1, 30 if quick else 110)) + r.sample(gen_texts, 60 if quick else 2000) + \
+        r.sample(printed, min(len(printed), 60 if quick else 2000)) + [t for t in stm.HAND if len(t) > 60][:40]
+    for b in bases:
+        for t in stm.mutants(r, b, 8 if quick else 20):
+            texts.append(('mutant', t))
+    small = sorted([t for t in corpus + gen_texts[:50] if 120 <= len(t) <= 420], key=len)
+    for b in ([small[0], small[len(small) // 2], c10.SCHEMA_TEXT.encode()] if small else [c10.SCHEMA_TEXT.encode()]) + ([] if quick else small[1:12]):
+        for t in stm.truncations(b):
+            texts.append(('truncation', t))
+    b = b'@a("\\u{e9}\\n") namespace N::M { entity E, F in [G] = { "k\xc3\xa9"?: Set<__cedar::Long> /* c */ } tags X::Y; // d\n action "a b" in [N::Action::"p"] appliesTo { principal: E, resource: [F], context: {} }; }'
+    for t in stm.truncations(b):
+        texts.append(('truncation', t))
+    texts.append(('hand', stm.RICH))
+    for t in stm.systematic(stm.RICH):
+        texts.append(('systematic', t))
+    for t in stm.truncations(stm.RICH):
+        texts.append(('truncation', t))
+    tcases = ['(case st%d stparse %s)' % (i, S(t)) for i, (_, t) in enumerate(texts)]
+    go_t = lib.run_go(tcases, 'stparse', ctx.workdir, timeout_ms=30000)
+    mo_t = lib.run_model(tcases, 'stparse', ctx.workdir)
+    dist = {}
+    mism = 0
+    for c, (origin, t) in zip(tcases, texts):
+        cid = lib.case_id(c)
+        g_, m_ = go_t.get(cid, '(missing)'), mo_t.get(cid, '(missing)')      # raw comparison: both sides print every map in key order
+        d = dist.setdefault(origin, dict(cases=0, accepted=0, rejected=0, unmodelled=0, mismatches=0))
+        d['cases'] += 1
+        ctx.count(c[:3000], g_.startswith('(ok'))
+        if m_ == '(unmodelled)':
+            d['unmodelled'] += 1
+            continue
+        d['accepted' if g_.startswith('(ok') else 'rejected'] += 1
+        if g_ != m_ or not (g_ == '(err)' or g_.startswith('(ok (xschema')):
+            mism += 1
+            d['mismatches'] += 1
+            if mism <= 8:
+                ctx.violation('Schema.UnmarshalCedar and the Coq model (Impl/SchemaText.v parse_schema) disagree on %r: go=%s model=%s' % (t[:400], g_[:400], m_[:400]),
+                              dict(kind='case', case=c, go=g_, model=m_))
+    tot = dict(cases=len(tcases), accepted=sum(d['accepted'] for d in dist.values()), rejected=sum(d['rejected'] for d in dist.values()),
+               unmodelled=sum(d['unmodelled'] for d in dist.values()), mismatches=mism)
+    ctx.extra['stparse'] = dict(total=tot, by_origin=dist)
+    lib.log('  stparse: %d cases: %d accepted, %d rejected, %d unmodelled, %d mismatches' % (tot['cases'], tot['accepted'], tot['rejected'], tot['unmodelled'], mism))
+    for o in sorted(dist):
+        d = dist[o]
+        lib.log('    %-10s %5d cases: %5d accepted %5d rejected %3d unmodelled %3d mismatches' % (o, d['cases'], d['accepted'], d['rejected'], d['unmodelled'], d['mismatches']))
+    ctx.oblige('correspondence: Schema.UnmarshalCedar = SchemaText.parse_schema (accept / reject and the AST) on %d texts (%d accepted, %d rejected, %d outside the '
+               'modelled domain): printed, generated, repository schema files, corner cases, mutants, truncations, deep nestings'
+               % (tot['cases'], tot['accepted'], tot['rejected'], tot['unmodelled']), 'correspondence', mism == 0)
+
+
 def run(ctx):
     b = lib.standard_build(ctx)
     if not lib.require_builds(ctx, b):
@@ -216,6 +330,7 @@ def run(ctx):
                 det = ''
             ctx.violation('schema codec: %s\nSOURCE:\n%s\nDETAIL: %s' % (name, text[:600], det), dict(kind='case', case=c, go=res[:3000]))
     ast_part(ctx)
+    text_part(ctx)
     ctx.extra['result_histogram'] = hist
     ctx.oblige('direct oracle: schema text/JSON round trips preserve the resolved schema and are byte-stable (%d schemas)' % len(cases), 'oracle', bad == 0)
     for c in cases[:2]:
